@@ -196,6 +196,23 @@ def check_mutex_discipline(chk, rule='R18.6'):
                         if held < 0 and bad is None:
                             bad = 'releases the memory mutex without holding it at %s (path %s)' % (loc, p.cond_text()[:100])
                 nets.add(tuple(seq))
+                # a function that publishes a new size of the shared memory (stores `pages`): whatever it does to the storage in bulk
+                # (clearing the added pages) is done inside the lock region and before the new page count is stored - afterwards other
+                # threads see the new size (a locked memory.size) and store into the new pages
+                held2, published = 0, False
+                for ev, args, loc in p.events:
+                    if ev == 'lock':
+                        held2 += 1
+                    elif ev == 'unlock':
+                        held2 -= 1
+                    elif ev == 'write' and len(args) > 1 and args[1] == 'pages':
+                        published = True
+                    elif ev in ('memset', 'memmove', 'memcpy', 'realloc') and any(w[0] == 'write' and len(w[1]) > 1 and w[1][1] == 'pages' for w in p.events):
+                        if (held2 <= 0 or published) and bad is None:
+                            bad = '%s the storage of the shared memory (%s at %s) %s (path %s) - a store another thread makes into the new pages ' \
+                                  'after it saw the new size is overwritten' % (
+                                      'clears / moves', ev, loc, 'after the new page count was stored' if published else 'outside the lock region',
+                                      p.cond_text()[:100])
                 if held != 0 and bad is None:
                     bad = 'returns with the memory mutex %s (path %s)' % ('still held' if held > 0 else 'over-released', p.cond_text()[:100])
             if nets in ({(1,)}, {(-1,)}):
